@@ -31,8 +31,8 @@ CHECKS = {
          "correctly rounded int->float and int/int) answers unknown units with ValueError, mixed families with an "
          "exception, and returns a number only within one family; exact rational layer: identity, composition, "
          "inversion, one inverse factor per unit for rate constants and round trip; flint on every finite float returns a "
-         "numerically equal value, an int exactly when integral (no axioms), ints up to 2^53 are returned unchanged, the "
-         "big-int deviation is proved as a refutation (known finding); convert_units on floats is within 3*2^-53 of the "
+         "numerically equal value, an int exactly when integral (no axioms), every Python int of any size is returned unchanged "
+         "(after the repair f8ab925 of the big-int defect this check had found); convert_units on floats is within 3*2^-53 of the "
          "exact conversion whenever the intermediates stay in the normal range (Flocq bridge), and the unconditional bound "
          "is refuted for subnormal underflow. Model tied to the code bit-exactly (vm_compute inside Coq vs Python through mantissa/exponent) on "
          "all unit pairs x values over 600 decades, huge ints, rate units of arity 1-3.",
@@ -106,7 +106,7 @@ CHECKS = {
          "regenerated from its behaviour on every run) agree with iupac_utils on sequences of every length wherever both "
          "are defined. Pair table, loop index, kernel string, size, connectivity, exterior/enclosed domains and split "
          "components of the legacy objects are tied by correspondence to the same model functions as the current API "
-         "(C06/C08/C09) and compared directly between the two implementations on every run.",
+         "(C06/C08/C09) and compared directly between the two implementations on every run, as are whole histories of creation requests (explicit and automatic names, rotations, refused requests in between) through both registries.",
     design="DESIGN.md 7 (C20)", technique="Coq proof (orbit argument on the legacy rotation loop; regenerated legacy tables) + correspondence of both object models"),
  "C03": dict(
     text="Proof: invariant ViewOK on the object state machine (stored representation = turns-th rotation of the canonical "
@@ -125,11 +125,16 @@ CHECKS = {
          "the turn count with period n; rotate_complex_pt's step is the inverse relabelling; for non-empty strands "
          "ComplexS.rotate()/rotate_pt() (turns=None) yield exactly the n rotations starting with the current one, and "
          "rotate_complex_pt/rotate_complex_db yield the same n with k-th element = the ((n-k) mod n)-th. The proof "
-         "characterises the literal scan/flip loops on the zipper text A0(A1(..Ak+B0)..)Bk. 'Inputs not modified' and the "
-         "generators with explicit turn counts are observed by the correspondence, not proved. Model tied to the code by "
-         "differential runs of all seven operations on every well-formed structure of length <= 8 (quick) / 10 (thorough) "
-         "with generated domains, random complexes up to 60 strands / depth 100, single, disconnected and symmetric "
-         "complexes, and mutated inputs.",
+         "characterises the literal scan/flip loops on the zipper text A0(A1(..Ak+B0)..)Bk. With an explicit turn count t (any "
+         "int) rotate_complex_pt/rotate_complex_db yield max(t,0) elements, the k-th carrying rcount(t,n,k) steps (k+1 for "
+         "t<n; for t>=n the level turns=n is skipped, so elements t-n-1 and t-n coincide), periodic with period n, and t=n is "
+         "exactly the turns=None enumeration; ComplexS.rotate/rotate_pt(t) yield max(t,1) elements, the k-th being the k-fold "
+         "rotation; proved for every t, the naive 'k-th = k-fold' reading of the utility family is refuted by a witness. "
+         "'Inputs not modified' is not expressible in the functional model: it is observed by the correspondence (deep-copy "
+         "guards) and by calling every operation again after earlier calls on related arguments in the same process. Model "
+         "tied to the code by differential runs of all operations on every well-formed structure of length <= 8 (quick) / 10 "
+         "(thorough) with generated domains, random complexes up to 60 strands / depth 100, single, disconnected and "
+         "symmetric complexes, explicit turn counts of every kind, and mutated inputs.",
     design="DESIGN.md 5, 7 (C07)", technique="Coq proof (zipper decomposition of Dyck trees, track/entry-list relabelling, induction) + model/implementation correspondence"),
  "C08": dict(
     text="Proof, all well-formed structures, no size bound: make_loop_index (both modes) returns the pre-order loop "
